@@ -93,15 +93,20 @@ CONFIG = {
         "streams": [
             {"name": "c01", "n": {"quick": 8000, "thorough": 160000},
              "trivial": lambda case, ans: not ans.startswith("(ok")},
+            # the five element-level traits: mistake-free elements
+            {"name": "c16", "n": {"quick": 4000, "thorough": 80000},
+             "trivial": lambda case, ans: not ans.startswith("(ok")},
         ],
-        "rule": "compiled corpus of 110 struct + 50 enum FromMeta receivers over the derive option space (rename, rename_all x5, default none/bare/fn at field and container level, skip in 3 spellings, multiple, flatten (nested receiver / map), with (path / closure), map, and_then, allow_unknown_fields, word; nested to depth 3), each declaration read back from the compiled source; inputs composed from per-field templates (any subset of optional fields, shuffled order, 0..3 occurrences of multiple fields, every accepted literal spelling, flatten payloads); non-trivial = the input is accepted (Ok) with a value; distinct by case text",
+        "rule": "c01: compiled corpus of 110 struct + 50 enum FromMeta receivers over the derive option space (rename, rename_all x5, default none/bare/fn at field and container level, skip in 3 spellings, multiple, flatten (nested receiver / map), with (path / closure), map, and_then, allow_unknown_fields, word; nested to depth 3), each declaration read back from the compiled source; inputs composed from per-field templates (any subset of optional fields, shuffled order, 0..3 occurrences of multiple fields, every accepted literal spelling, flatten payloads); c16: the 80 element-level receivers (FromDeriveInput / FromField / FromVariant / FromTypeParam / FromAttributes) on mistake-free elements with their items split over several attributes; non-trivial = the input is accepted (Ok) with a value; distinct by case text",
         "assumptions": ["field converters, custom functions and Default impls are parameters of the theorems; their values are shipped as oracle rows evaluated on the real functions", "WF: field identifiers distinct, converters return (no panic)"],
-        "partial": "FromMeta structs (and enums via C09's model); the five element-level traits are covered by C08/C16's streams",
+        "partial": "theorems are stated for the struct parser's item loop and literal (FromMeta structs; C08.walk_is_one_list reduces the element-level traits' attribute walk to the same loop; enums via C09's model); newtype / unit receivers proxy and are covered by the correspondence only",
     },
     "C02": {
         "lean_modules": ["Darling.Props.C02"],
         "streams": [
             {"name": "c02", "n": {"quick": 12000, "thorough": 240000},
+             "trivial": lambda case, ans: not ans.startswith("(err")},
+            {"name": "c16m", "n": {"quick": 4000, "thorough": 80000},
              "trivial": lambda case, ans: not ans.startswith("(err")},
         ],
         "rule": "same corpus; inputs are valid compositions with 1..4 injected mistakes (unknown name at edit distance 1..2 of a valid name, repeated item, bare literal, dropped required item, rejected value) plus whole-value samples with mistakes inside nested receivers, enum variants and map values; non-trivial = the input is rejected; distinct by case text",
@@ -187,7 +192,7 @@ CONFIG = {
         ],
         "rule": "c16: the 80 element-level receivers x generated input elements: derive inputs with every struct style with 0..6 fields, enums with 0..6 variants of mixed style and discriminants, unions (mistake mode), generics with lifetimes / types / consts / defaults / where-clauses, 5 visibility forms, 9 field types, type params with bounds and defaults; receivers declare any subset of the magic fields, `data: ast::Data<V, F>` / `fields: ast::Fields<F>` with V, F in {(), syn types, other corpus receivers} or a `with` converter; the implementation's value is serialised member by member (tokens) and compared with the model's mirror of the input; c16m: the same with mistakes inside nested fields / variants (all failures reported, located); c16p: Fields::<syn::Field>::try_from(..).to_token_stream() against the model's rendering of the original fields (white space removed); non-trivial = Ok value (c16) / Err (c16m)",
         "assumptions": ["tokens are compared as printed by proc-macro2; entry converters are parameters of the theorems"],
-        "partial": "magic members wrapped in SpannedValue / WithOriginal / Result and `ast::Generics<..>` mirrors are not in the corpus; spans of magic members are not compared",
+        "partial": "magic members wrapped in SpannedValue / WithOriginal / Result are not in the corpus; spans of magic members are not compared; the per-receiver wiring (which member gets which part) lives in the executable Env layer and is tied by the correspondence, the theorems cover the total functions it calls",
     },
     "C07": {
         "lean_modules": ["Darling.Props.C07", "Darling.Props.C07Universe", "Darling.Props.C07Outer"],
